@@ -234,6 +234,8 @@ type Net struct {
 	// Tips are the harness's notion of the best head per level (production: the
 	// hierarchical coordinator picks them); advanced by every successful append.
 	Tips [3]*types.WorkObject
+	// GenesisKicks counts how often New had to restart the genesis pending-header hand-down
+	GenesisKicks int
 	// StaleTemplates counts sealed headers the node refused with ErrBodyNotFound (template replaced meanwhile)
 	StaleTemplates int
 }
@@ -390,8 +392,17 @@ func New(opts Options) (*Net, error) {
 	if !reopen {
 		// the prime's init() goroutine pushes the genesis pending header down
 		// once the sub interfaces are set; wait for the zone to have one
-		deadline := time.Now().Add(180 * time.Second) // watchdog only (loaded machines)
+		deadline := time.Now().Add(300 * time.Second) // watchdog only (loaded machines)
+		kick := time.Now().Add(45 * time.Second)
 		for {
+			if time.Now().After(kick) {
+				// The hand-down is a single fire-and-forget goroutine of the prime slice; on a badly loaded
+				// (race-instrumented) machine it was seen not to arrive. Start it again, as a node restart would.
+				kick = time.Now().Add(45 * time.Second)
+				n.GenesisKicks++
+				gh := n.GenHash
+				go n.Nodes[0].Core.Slice().NewGenesisPendingHeader(nil, gh, gh)
+			}
 			// (each level stores its own genesis pending header after handing it down: wait for all three)
 			if n.Zone().Core.Slice().ReadBestPh() != nil && n.Nodes[1].Core.Slice().ReadBestPh() != nil && n.Nodes[0].Core.Slice().ReadBestPh() != nil {
 				break
